@@ -64,6 +64,8 @@ pub struct CaseResult {
     pub outcome: Outcome,
     pub nontrivial: bool,
     pub classes: Vec<&'static str>,
+    /// executions of the code under test inside this case (0 = count the case as one)
+    pub execs: u64,
 }
 
 impl Default for CaseResult {
@@ -74,7 +76,7 @@ impl Default for CaseResult {
 
 impl CaseResult {
     pub fn new() -> Self {
-        CaseResult { outcome: Outcome::Pass, nontrivial: false, classes: Vec::new() }
+        CaseResult { outcome: Outcome::Pass, nontrivial: false, classes: Vec::new(), execs: 0 }
     }
     pub fn class(&mut self, c: &'static str) {
         if !self.classes.contains(&c) {
@@ -231,6 +233,7 @@ pub struct PartReport {
     pub name: &'static str,
     pub rule: &'static str,
     pub evaluations: u64,
+    pub executions: u64,
     pub distinct: HashSet<u64>,
     pub classes: BTreeMap<&'static str, u64>,
     pub samples: Vec<Value>,
@@ -250,6 +253,7 @@ pub trait Part: Sync + Send {
 #[derive(Default)]
 struct WorkerStats {
     evaluations: u64,
+    executions: u64,
     distinct: HashSet<u64>,
     classes: BTreeMap<&'static str, u64>,
     samples: Vec<Value>,
@@ -261,6 +265,7 @@ struct WorkerStats {
 impl WorkerStats {
     fn record<C: Serialize>(&mut self, case: &C, res: &CaseResult) {
         self.evaluations += 1;
+        self.executions += res.execs.max(1);
         for c in &res.classes {
             *self.classes.entry(c).or_insert(0) += 1;
         }
@@ -292,6 +297,7 @@ fn merge(
         name,
         rule,
         evaluations: 0,
+        executions: 0,
         distinct: HashSet::new(),
         classes: BTreeMap::new(),
         samples: Vec::new(),
@@ -304,6 +310,7 @@ fn merge(
     let mut plain = Vec::new();
     for s in stats {
         rep.evaluations += s.evaluations;
+        rep.executions += s.executions;
         rep.distinct.extend(s.distinct);
         for (k, v) in s.classes {
             *rep.classes.entry(k).or_insert(0) += v;
@@ -757,6 +764,7 @@ pub fn run_property(prop: &Property, cfg: &Cfg) -> i32 {
             json!({
                 "part": r.name,
                 "evaluations": r.evaluations,
+                "executions": r.executions,
                 "distinct_nontrivial": r.distinct.len(),
                 "classes": r.classes,
                 "excluded_known": r.excluded_known,
@@ -773,6 +781,7 @@ pub fn run_property(prop: &Property, cfg: &Cfg) -> i32 {
         "level": prop.level,
         "coverage": {
             "evaluations": evaluations,
+            "executions": reports.iter().map(|r| r.executions).sum::<u64>(),
             "distinct_nontrivial": distinct.len(),
             "rule": rule,
             "samples": samples,
@@ -811,9 +820,10 @@ pub fn run_property(prop: &Property, cfg: &Cfg) -> i32 {
     );
     for r in &reports {
         println!(
-            "  part={} evaluations={} distinct_nontrivial={} exhaustive={} classes={:?}",
+            "  part={} evaluations={} executions={} distinct_nontrivial={} exhaustive={} classes={:?}",
             r.name,
             r.evaluations,
+            r.executions,
             r.distinct.len(),
             r.exhaustive,
             r.classes
